@@ -164,6 +164,13 @@ def main():
                         except subprocess.TimeoutExpired:
                             caught.append(f"{p}:TIMEOUT")
                             continue
+                        if p == "C01" and r.returncode not in (0, 1):
+                            # the harness died of a runaway allocation: confirm the case the watchdog saved (as ./check does)
+                            import glob
+                            saved = [f for f in glob.glob(f"{ROOT}/replays/found/C01-hang-*.json") if os.path.getmtime(f) >= t0]
+                            if saved and sh(f"{verif} replay {saved[0]} --property C01", env=env).returncode == 3:
+                                caught.append("C01:hang")
+                                continue
                         if r.returncode == 2 and "hangs on the saved case" in r.stderr:
                             m.setdefault("inconclusive_hang", []).append(p)
                         if "VIOLATION property=" in r.stdout:
